@@ -625,6 +625,23 @@ func (g *Gen) nextStreamDeep() []string {
 	g.n++
 	ms := strconv.Itoa(1 + g.n/3 + g.R.Intn(3))
 	id := ms + "-" + strconv.Itoa(g.R.Intn(4))
+	if g.R.Intn(12) == 0 { // the end of the id space, on a key of its own: ids near the last one, then automatic and partial ids
+		const mx = "9223372036854775807"
+		switch g.R.Intn(7) {
+		case 0:
+			return []string{"xadd", "xend", mx + "-" + g.pick([]string{mx, "9223372036854775806", "5"}), "f", "v"}
+		case 1, 2:
+			return []string{"xadd", "xend", "*", "f", "v"}
+		case 3:
+			return []string{"xadd", "xend", mx + "-*", "f", "v"}
+		case 4:
+			return []string{"xadd", "xend", g.pick([]string{"5-5", "9223372036854775806-" + mx, mx + "-0"}), "f", "v"}
+		case 5:
+			return []string{"del", "xend"}
+		default:
+			return []string{"xrange", "xend", "-", "+"}
+		}
+	}
 	switch g.R.Intn(16) {
 	case 0, 1, 2, 3, 4:
 		return []string{"xadd", "xd", id, "f", "v" + strconv.Itoa(g.n)}
